@@ -305,6 +305,9 @@ func (g *Gen) frac() string {
 		// random 18-digit decimal in (0,1]
 		hi := rapid.Int64Range(1, 1_000_000_000).Draw(g.t, g.label("frac-hi"))
 		lo := rapid.Int64Range(0, 999_999_999).Draw(g.t, g.label("frac-lo"))
+		if hi == 1 && lo == 0 {
+			lo = 1 // fractions are in (0,1]
+		}
 		return fmt.Sprintf("0.%09d%09d", hi-1, lo)
 	}
 	return g.pickS("frac", g.p.Fracs)
